@@ -19,6 +19,8 @@ PROOF_DATA = [b'', b'\x03' + H1 + b'\x00\x05', b'\x03' + H1 + b'\x05\x00', b'\x0
 UPDATE_DATA = [b'', b'\x04' + H2 + H1 + b'\x00\x01\x00\x02', b'\x04' + H1 + H2 + b'\x00\x01\x00\x02', b'\x04' + H2 + H1, b'\x04' + H2 + H1[:31],
                b'\x04' + H1 + H1 + b'\x00\x01\x00\x02', H2 + H1 + b'\x04\x00\x01\x00\x02']
 KINDS = [-1, 0, 1, 2, 3, 4, 5]
+TL_DATA = [b'', b'\x00', b'\x03abc', b'\x05abcde\x00\x00', b'\xfe\x00\x01\x00' + bytes(256), b'\xfe\x02\x00\x00ab\x00\x00', b'\xfe', b'\xfe\x01',
+           b'\xfd' + bytes(range(253)) + b'\x00\x00', b'zz\xfe\x05\x00\x00hello\x00\x00\x00', b'q\x02hi\x00', b'\x01\xfe\xfe\x01\x00\x00\x09']
 CP = 'pytoniq_core/proof/check_proof.py'
 
 GROUPS2 = {
@@ -120,6 +122,49 @@ GROUPS2 = {
             T('cellSliceRefsBad', 'VmCellSlice', 'deserialize', ('raise_if', 'st_ref'),
               {'st_ref': ('sr', N), 'end_ref': ('er', N)}, ['sr', 'er'], ret='Bool', ref='decide (¬ sr ≤ er)',
               grid={'sr': list(range(8)), 'er': list(range(8))}),
+        ]),
+    # ------------------------------------------------------------------ C14 / C19
+    'TlFraming': dict(
+        src='pytoniq_core/tl/generator.py', imports=['TonVerif.PyBytes'], ref_imports=['TonVerif.Model.Tl'],
+        targets=[
+            # --- serialize_field, bytes / string
+            T('tlShortLen', 'TlSchemas', 'serialize_field',
+              ('match', "if __X__:\n    temp += __ANY1__\nelse:\n    temp += __ANY2__"),
+              {'bytes_len': ('n', N)}, ['n'], ret='Bool', ref='decide (n ≤ 253)', grid={'n': arith.LENS}),
+            T('tlShortHeader', 'TlSchemas', 'serialize_field', ('match', "if __ANY0__:\n    temp += __X__\nelse:\n    temp += __ANY1__"),
+              {'bytes_len': ('n', N)}, ['n'], ret=BY, ref='Spec.Tl.natToLE 1 n', guard='n < 256', grid={'n': arith.LENS}),
+            T('tlLongHeader', 'TlSchemas', 'serialize_field', ('match', "if __ANY0__:\n    temp += __ANY1__\nelse:\n    temp += __X__"),
+              {'bytes_len': ('n', N)}, ['n'], ret=BY, ref='254 :: Spec.Tl.natToLE 3 n', guard='n < 16777216',
+              grid={'n': arith.LENS + [2 ** 16 - 1, 2 ** 16 + 5, 2 ** 24 - 1, 2 ** 24]}),
+            T('tlPad', 'TlSchemas', 'serialize_field', ('stmts', "if __ANY0__:\n    temp += __ANY1__", "if __ANY0__:\n    temp += __ANY1__", 'temp'),
+              {'temp': ('temp', BY)}, ['temp'], ret=BY,
+              ref='(if temp.length % 4 ≠ 0 then temp ++ List.replicate (4 - temp.length % 4) 0 else temp)',
+              grid={'temp': [bytes(range(1, k + 1)) for k in range(0, 14)] + [bytes(254), bytes(255), bytes(256), bytes(257)]}),
+            # --- deserialize, bytes / string: header (long/short form), then the skip over content and padding
+            T('tlHdrLong', 'TlSchemas', 'deserialize', ('match', "if __X__:\n    byte_len = int.from_bytes(__ANY1__, 'little')\n    ...\nelse:\n    ..."),
+              {'data': ('data', BY), 'i': ('i', N)}, ['data', 'i'], ret='Bool',
+              ref='decide (Model.pySlice data i (i + 1) = [254])', grid={'data': TL_DATA, 'i': [0, 1, 2, 3, 4, 5, 9]}),
+            T('tlHdrLen', 'TlSchemas', 'deserialize', ('stmts', "if __ANY0__:\n    byte_len = int.from_bytes(__ANY1__, 'little')\n    ...\nelse:\n    ...",
+                                                       "if __ANY0__:\n    byte_len = int.from_bytes(__ANY1__, 'little')\n    ...\nelse:\n    ...", 'byte_len'),
+              {'data': ('data', BY), 'i': ('i', N)}, ['data', 'i'],
+              ref='(Model.Tl.readFrame (data.drop i)).2.1', grid={'data': TL_DATA, 'i': [0, 1, 2, 3, 4, 5, 9]}),
+            T('tlHdrAttach', 'TlSchemas', 'deserialize', ('stmts', "if __ANY0__:\n    byte_len = int.from_bytes(__ANY1__, 'little')\n    ...\nelse:\n    ...",
+                                                          "if __ANY0__:\n    byte_len = int.from_bytes(__ANY1__, 'little')\n    ...\nelse:\n    ...", 'attach_len'),
+              {'data': ('data', BY), 'i': ('i', N)}, ['data', 'i'],
+              ref='(if Model.pySlice data i (i + 1) = [254] then 4 else 1)', grid={'data': TL_DATA, 'i': [0, 1, 2, 3, 4, 5, 9]}),
+            T('tlHdrNext', 'TlSchemas', 'deserialize', ('stmts', "if __ANY0__:\n    byte_len = int.from_bytes(__ANY1__, 'little')\n    ...\nelse:\n    ...",
+                                                        "if __ANY0__:\n    byte_len = int.from_bytes(__ANY1__, 'little')\n    ...\nelse:\n    ...", 'i'),
+              {'data': ('data', BY), 'i': ('i', N)}, ['data', 'i'],
+              ref='(i + (if Model.pySlice data i (i + 1) = [254] then 4 else 1))', grid={'data': TL_DATA, 'i': [0, 1, 2, 3, 4, 5, 9]}),
+            T('tlSkip', 'TlSchemas', 'deserialize', ('stmts', 'i += byte_len', "if __ANY1__:\n    ...", 'i'),
+              {'i': ('i', N), 'byte_len': ('n', N), 'attach_len': ('a', N)}, ['i', 'n', 'a'],
+              ref='(i + n + (if (n + a) % 4 ≠ 0 then 4 - (n + a) % 4 else 0))',
+              grid={'i': [0, 1, 4, 5, 100], 'n': list(range(0, 14)) + [253, 254, 255, 256, 65535, 65536], 'a': [0, 1, 2, 3, 4, 5]}),
+            # --- deserialize, vector: the length guard of fix 110bf4a (Python ints: `len(data) - i` may be negative)
+            T('tlVecTooLong', 'TlSchemas', 'deserialize', ('raise_if', 'vector length'),
+              {'length': ('length', N), 'len(data)': ('total', Z), 'i': ('i', Z)}, ['length', 'total', 'i'], ret='Bool',
+              ref='decide ((length : Int) > total - i)', grid={'length': [0, 1, 2, 3, 4, 5, 8, 2 ** 22, 2 ** 32 - 1], 'total': [0, 1, 3, 4, 5, 8, 12, 2 ** 22 + 4],
+                                                              'i': [0, 1, 4, 5, 8, 9, 12, 13, 16]}),
         ]),
 }
 
